@@ -622,6 +622,12 @@ def judge(rep, cases_by_id, plan, rows, crashes, tc, stats, samples):
         else:
             ev = None
         script = [{"toolchain": tc, "case": {k: case[k] for k in case if k not in ("val", "id")}, "placement": kind}]
+        if kind.startswith("tls"):
+            # what a thread-local shows depends on its neighbours in the TLS block: they are part of the case
+            script[0]["order"] = v["id"]
+            script[0]["tls_context"] = [{"ty": cases_by_id[o["id"]]["ty"], "m": cases_by_id[o["id"]]["m"], "placement": o["kind"],
+                                         "order": o["id"]}
+                                        for o in plan["vars"] if o["kind"].startswith("tls") and o["id"] != v["id"]]
         base = dict(shape=shape_of(case), rust=case.get("rust", ""), toolchain=tc, placement=kind, script=script,
                     case_key=case_key(case))
         results = by_name.get(name, [])
@@ -814,8 +820,11 @@ def run(rep, tier, replay):
         r2, c2 = type_cases("Values_types_d2.cfg", timeout=1800)
         tlc_states, tlc_trans = tlc_states + r2.distinct, tlc_trans + r2.generated
         sets.append(("d2", [c for c in c2 if c["depth"] == 2], "1.89"))
-        r3, c3 = type_cases("Values_types_d3.cfg", simulate=400, depth=4, timeout=900)
-        sets.append(("d3", [c for c in c3 if c["depth"] == 3][:1500], "1.89"))
+        r3, c3 = type_cases("Values_types_d3.cfg", simulate=100, depth=4, timeout=900)
+        c3 = [c for c in c3 if c["depth"] == 3]
+        import random
+        c3 = random.Random(vlib.seed()).sample(c3, min(len(c3), 1200))      # depth 3: seeded sample
+        sets.append(("d3", c3, "1.89"))
     tlc_states, tlc_trans = tlc_states + r.distinct, tlc_trans + r.generated
     type_states = r.distinct
 
@@ -954,6 +963,8 @@ def run_replay(rep, tier, replay):
                     f'EXCEPT !.ring.ok = FALSE], {tla_of(case["ops"])}, 1), {tla_of(case["ops"])}, "script"))>>)\n')
         else:
             body = f'ASSUME PrintT(<<"RCASE", ToJson(Descriptor({tla_of(case["ty"])}, {case["m"]}))>>)\n'
+        for n, o in enumerate(step.get("tls_context", [])):
+            body += f'ASSUME PrintT(<<"RCTX", ToJson([n |-> {n}, d |-> Descriptor({tla_of(o["ty"])}, {o["m"]})])>>)\n'
         (wd / "ValuesReplay.tla").write_text("---- MODULE ValuesReplay ----\nEXTENDS Values\n" + body + "====\n")
         cfg = (vlib.SPEC / "Values_vdq.cfg").read_text().replace("MaxCap = 6", "MaxCap = 1")
         (wd / "ValuesReplay.cfg").write_text(cfg.replace("INVARIANTS Emit DecoderEqualsAbstraction", "INVARIANTS DecoderEqualsAbstraction"))
@@ -964,15 +975,21 @@ def run_replay(rep, tier, replay):
         if not hit:
             raise vlib.ToolError(f"replay: TLC did not evaluate the stored case\n{r.out[-1500:]}")
         fresh = hit[0]
+        ctx = sorted([c for c in vlib.printed(r.out, "RCTX") if isinstance(c, dict)], key=lambda c: c["n"])
         for f in wd.iterdir():
             f.unlink()
         wd.rmdir()
-    # reproduce the placement: pick an id with the same placement function value
-    want = step.get("placement", "local")
-    fresh["id"] = 0
-    if "ty" in fresh:
-        fresh["id"] = next(i for i in range(0, 2000) if gen.placement(fresh, i) == want)
-    run_set(rep, exe, [fresh], tc, "replay", stats, samples, 1, 1)
+    fresh["place"] = step.get("placement", "local")
+    fresh["order"] = step.get("order", 0)
+    batch = [fresh]
+    for c, o in zip([c["d"] for c in ctx] if "special" not in case else [], step.get("tls_context", [])):
+        c["place"], c["order"] = o["placement"], o.get("order", 0)
+        batch.append(c)
+    batch.sort(key=lambda c: c["order"])           # declaration order of the original puppet
+    number(batch)
+    keep = len(rep.records)                        # the neighbours are context: read, not judged
+    run_set(rep, exe, batch, tc, "replay", stats, samples, 1, 1)
+    rep.records = [r_ for r_ in rep.records[keep:] if r_.get("case_key") == case_key(fresh)]
     return rep.finish("exploration", {"evaluations": max(stats["evaluations"], 1),
                                       "distinct_nontrivial": len(stats["reads"]),   # distinct (case, API) reads
                                       "rule": RULE, "samples": samples or [{"replayed": step}], "replay_of": str(replay)})
